@@ -107,8 +107,9 @@ class FakeInotify:
         self.closed = True
 
 
-def end_to_end(seq, cuts):
-    """seq: list of (kind, cookie); cuts: indices where a new read batch starts; consumer drains after the reader"""
+def end_to_end(seq, cuts, eager=False):
+    """seq: list of (kind, cookie); cuts: indices where a new read batch starts; consumer drains after the reader - or, with
+    eager=True, the consumer runs between any two reads and takes whatever is deliverable at that (same) virtual instant"""
     ft = FakeTime()
     old = dqmod.time
     dqmod.time = ft
@@ -126,9 +127,24 @@ def end_to_end(seq, cuts):
         threading.Thread.__init__(buf)
         buf._stopped_event = threading.Event()
         buf._queue = DelayedQueue(InotifyBuffer.delay)
-        buf._inotify = FakeInotify(batches)
+        buf._inotify = FakeInotify([] if eager else batches)
         t = threading.Thread(target=buf.run)
         t.start()
+        got = []
+        if eager:
+            for b in batches:
+                buf._inotify.batches.append(b)
+                buf._inotify.more.set()
+                while buf._inotify.batches and t.is_alive():
+                    realtime.sleep(0.002)
+                realtime.sleep(0.02)
+                # the consumer gets to run: everything at the head of the queue that need not wait is taken now
+                while t.is_alive() or True:
+                    with buf._queue._lock:
+                        head = buf._queue._queue[0] if len(buf._queue._queue) else None
+                    if head is None or head[2]:
+                        break
+                    got.append(buf.read_event())
         while buf._inotify.batches and t.is_alive():
             realtime.sleep(0.002)
         realtime.sleep(0.02)
@@ -136,8 +152,6 @@ def end_to_end(seq, cuts):
         buf._inotify.close()
         t.join(2)
         out = []
-        buf._queue.close() if False else None
-        got = []
         n_items = len(buf._queue._queue)
         for _ in range(n_items):
             got.append(buf.read_event())
@@ -236,7 +250,7 @@ def main():
             import c17_battery
             pr = c17_battery.SCEN[c["name"]]()
         else:
-            pr = check_group([tuple(x) for x in c["spec"]], [tuple(x) for x in c["preload"]]) if c["kind"] == "group" else end_to_end([tuple(x) for x in c["seq"]], set(c["cuts"]))
+            pr = check_group([tuple(x) for x in c["spec"]], [tuple(x) for x in c["preload"]]) if c["kind"] == "group" else end_to_end([tuple(x) for x in c["seq"]], set(c["cuts"]), c.get("eager", False))
         replay_result(bool(pr), pr[:2])
     L = 4
     bat = Battery({"alphabet": "FROM#1 TO#1 FROM#2 TO#2 CREATE", "batch length": f"<= {L}", "queue preloads": ["empty", "FROM#1", "FROM#2", "pair#1 + FROM#1"], "end-to-end": "sequences of length <= 4 (+IGNORED) x all batch cuts", "reader": "scripted kernel buffers of <= 3 records over FROM/TO/CREATE/queue-overflow marker through the real Inotify.read_events"})
@@ -269,6 +283,11 @@ def main():
                 pr = end_to_end(list(spec), set(cuts))
                 if pr:
                     bat.fail("C08.end-to-end", pr[0], {"kind": "e2e", "seq": [list(x) for x in spec], "cuts": list(cuts), "problems": pr[:2]}, "InotifyBuffer.run")
+                if cuts and len(cuts) <= 2 and hash((spec, cuts)) % 3 == 0:
+                    bat.case(hash((spec, cuts, "e2e-eager")))
+                    pr = end_to_end(list(spec), set(cuts), True)
+                    if pr:
+                        bat.fail("C08.end-to-end(consumer runs between reads)", pr[0], {"kind": "e2e", "seq": [list(x) for x in spec], "cuts": list(cuts), "eager": True, "problems": pr[:2]}, "InotifyBuffer.run")
     # every record of a read batch is decoded (nameless records - events on the watched object itself - in every position)
     import struct
     from watchdog.observers.inotify_c import Inotify
